@@ -1,6 +1,6 @@
 From Coq Require Import Extraction ExtrOcamlBasic.
-From Rimu Require Import Base Regex RegexParse Str Types Tables Guards State Inline Block.
+From Rimu Require Import Base Regex RegexParse Str Types Tables Guards State Inline Block Rimuc.
 Extraction Language OCaml.
 Set Extraction Output Directory ".".
 Extraction "rimu_model.ml" S0 run api_render regex_table re_search_pos quotesRe unescapeRe
-  quotes_default document_init py_int slugify mk_reader spans_render macros_render_top parse_regex.
+  quotes_default document_init py_int slugify mk_reader spans_render macros_render_top parse_regex rimuc_main.
